@@ -871,3 +871,21 @@ pub fn timelock_seal_frame<R: RC>(
     let w = shake128_xor(&alpha_le, frame);
     RTimeLock { u, v, w }
 }
+
+// ---- ElGamal with a caller-supplied message generator (the trait-level API accepts one) ----
+
+pub fn elgamal_prove_gen<R: RC>(pk: R::Pk, h: R::Pk, m: &RS, b: &RS, r: &RS) -> RElGamalProof<R> {
+    let c1 = R::Pk::gen().mul(b);
+    let c2 = pk.mul(b).add(h.mul(m));
+    let r1 = R::Pk::gen().mul(r);
+    let r2 = pk.mul(r).add(h.mul(b));
+    let c = elgamal_challenge::<R>(pk, h, c1, c2, r1, r2);
+    RElGamalProof { c1, c2, message_proof: *b + c * *m, blinder_proof: *r + c * *b, challenge: c }
+}
+
+pub fn elgamal_verify_gen<R: RC>(pk: R::Pk, h: R::Pk, p: &RElGamalProof<R>) -> bool {
+    let nc = -p.challenge;
+    let r1 = p.c1.mul(&nc).add(R::Pk::gen().mul(&p.blinder_proof));
+    let r2 = p.c2.mul(&nc).add(h.mul(&p.message_proof)).add(pk.mul(&p.blinder_proof));
+    elgamal_challenge::<R>(pk, h, p.c1, p.c2, r1, r2) == p.challenge
+}
